@@ -148,6 +148,23 @@ class Order:
             e, n = (p == q), (p != q)
             if bool(e) == bool(n):
                 ctx.record("eq_ne_inconsistent:%s" % cls, case, "%r == %r is %r but != is %r" % (p, q, e, n))
+        if cls == "FractionScalar" and frac:
+            # the fraction part is edited in place after the comparisons above (the stored FractionValue is the caller's to
+            # edit): the order follows the new amount
+            um = self.um
+            a.GetValue().GetFraction().numerator = frac[0] + 3 * frac[1]
+            xt2 = case["x"] + (frac[0] + 3 * frac[1]) / frac[1]
+            A2 = um.offset[case["u"]] + um.slope[case["u"]] * xt2
+            B2 = um.offset[case["v"]] + um.slope[case["v"]] * y
+            if abs(A2 - B2) > 1e-6 * (abs(A2) + abs(B2)):
+                rel2 = "below" if A2 < B2 else "above"
+                for op in OPS:
+                    want_ab, want_ba = EXPECT[rel2][op]
+                    ctx.ev()
+                    if bool(_op(op, a, b)) != want_ab or bool(_op(op, b, a)) != want_ba:
+                        ctx.record("order_stale_after_editing_fraction:%s" % op, case, "after editing a's fraction in place a=%r, b=%r (a is %s b): a %s b = %r, b %s a = %r" % (a, b, rel2, op, _op(op, a, b), op, _op(op, b, a)))
+                        break
+                ctx.cls("order_after_in_place_edit")
         ctx.cls("order_%s_%s" % (cls, rel))
         if case["u"] != case["v"]:
             aff = self.um.offset[case["u"]] != 0 or self.um.offset[case["v"]] != 0
